@@ -1,5 +1,6 @@
 import ZapVerif.Model.OpenBuild
 import ZapVerif.Proofs.OpenBuild
+import ZapVerif.Proofs.TransOpen
 /-! # C19 — Open, Config.Build and std-log redirection are all-or-nothing; URLs validated -/
 namespace ZapVerif.C19
 open ZapVerif ZapVerif.OpenBuild
@@ -224,5 +225,174 @@ example : (build ⟨.ok, true, [true, true], [true, false]⟩) = ⟨.errout, [0,
 example : fileDecision ⟨false, "", "", "", "localhost", "/var/log/x"⟩ = some "/var/log/x" := by decide
 example : normalizeScheme "Zap+Log.v2".toUTF8.toList = some "zap+log.v2".toUTF8.toList := by decide +kernel
 example : (registerSink [("zap".toUTF8.toList, 0)] "ZAP".toUTF8.toList 1).1 = true := by decide +kernel
+
+end ZapVerif.C19
+
+/-! ## opening and building ARE the source (table `Gen/TransOpen.lean`)
+
+The bodies of `open` (writer.go), `Config.openSinks` (config.go), `newFileSinkFromPath`, `newFileSinkFromURL`, `newSink`
+(sink.go) and `redirectStdLogAt` (global.go), translated mechanically, are interpreted with the registry, the OS opener,
+`url.Parse`, `Close` and the standard logger as parameters / recorded intrinsics.  What is proved is the ORDER and the
+CLEANUP: which calls happen on which path — the decision models of `Model/OpenBuild.lean` (`openAll`, the `.out` /
+`.errout` stages of `build`, `fileDecision`, `newSink`, `redirectAt`). -/
+namespace ZapVerif.C19
+set_option linter.unusedSimpArgs false
+open ZapVerif ZapVerif.GoMini ZapVerif.TransOpen ZapVerif.Gen.TransOpen
+
+/-- `Config.openSinks`: the outputs are opened first; if that fails NOTHING else happens (`Open` closed what it had
+    opened); otherwise the error outputs are opened, and if THAT fails the outputs' close function is called — once —
+    before the error is returned; on success neither close function is called -/
+theorem openSinks_matches_source (P : Par) (outs errs : Val) (ev : List Val) (fuel : Nat) :
+    run (X P) (fuel + 1) "openSinks" [] [("ev", .list ev), ("outputPaths", outs), ("errorOutputPaths", errs)] =
+      if (P.zapOpen outs).2.2.isEmpty then
+        (if (P.zapOpen errs).2.2.isEmpty then
+          .done [.list (P.zapOpen outs).1, .list (P.zapOpen errs).1, .list []]
+            [("ev", .list (ev ++ [.list [TransOpen.nm "zap.Open", outs], .list [TransOpen.nm "zap.Open", errs]])),
+             ("outputPaths", outs), ("errorOutputPaths", errs)]
+        else
+          .done [.list [], .list [], .list (P.zapOpen errs).2.2]
+            [("ev", .list (ev ++ [.list [TransOpen.nm "zap.Open", outs], .list [TransOpen.nm "zap.Open", errs],
+                .list [TransOpen.nm "Closure.call", .list (P.zapOpen outs).2.1]])),
+             ("outputPaths", outs), ("errorOutputPaths", errs)])
+      else
+        .done [.list [], .list [], .list (P.zapOpen outs).2.2]
+          [("ev", .list (ev ++ [.list [TransOpen.nm "zap.Open", outs]])), ("outputPaths", outs), ("errorOutputPaths", errs)] := by
+  have hne : ∀ (x : Val) (l : List Val), ¬ (((x :: l).length : Int) = 0) := by intro x l; simp; omega
+  cases ho : (P.zapOpen outs).2.2 with
+  | cons e es =>
+    refine run_of_fin (X P) _ "openSinks" Gen.TransOpen.openSinks [] _ _ _ rfl rfl ?_
+    show (exec (X P) (fuel + 1) openSinks_body ⟨[], _⟩).fin = _
+    rw [exec_succ]
+    have hp : ¬ ((es.length : Int) + 1 = 0) := by omega
+    simp [openSinks_body, ho, hp, nm_zapOpen]
+  | nil =>
+    cases he : (P.zapOpen errs).2.2 with
+    | cons e es =>
+      refine run_of_fin (X P) _ "openSinks" Gen.TransOpen.openSinks [] _ _ _ rfl rfl ?_
+      show (exec (X P) (fuel + 1) openSinks_body ⟨[], _⟩).fin = _
+      rw [exec_succ]
+      have hp : ¬ ((es.length : Int) + 1 = 0) := by omega
+      simp [openSinks_body, ho, he, hp, nm_zapOpen, nm_closure]
+    | nil =>
+      refine run_of_fin (X P) _ "openSinks" Gen.TransOpen.openSinks [] _ _ _ rfl rfl ?_
+      show (exec (X P) (fuel + 1) openSinks_body ⟨[], _⟩).fin = _
+      rw [exec_succ]
+      simp [openSinks_body, ho, he, nm_zapOpen]
+
+/-- the standard streams are recognised by NAME only; every other path goes to the opener, once -/
+def pathSpec (P : Par) (path : Bytes) (ev : List Val) : (List Val × List Val) × List Val :=
+  if path = [115, 116, 100, 111, 117, 116] then (([.int 1], []), ev)
+  else if path = [115, 116, 100, 101, 114, 114] then (([.int 2], []), ev)
+  else (P.openFile (.bytes path), ev ++ [.list [TransOpen.nm "sinkRegistry.openFile", .bytes path, .int 1089, .int 438]])
+
+theorem newFileSinkFromPath_exec_matches_source (P : Par) (path : Bytes) (fl0 : Env) (ev : List Val) (fuel : Nat) :
+    (exec (X P) (fuel + 1) newFileSinkFromPath_body ⟨[("p0", .bytes path)], ("ev", .list ev) :: fl0⟩).fin =
+      some ([.list (pathSpec P path ev).1.1, .list (pathSpec P path ev).1.2], ("ev", .list (pathSpec P path ev).2) :: fl0) := by
+  rw [exec_succ]
+  by_cases h1 : path = [115, 116, 100, 111, 117, 116]
+  · subst h1; simp [newFileSinkFromPath_body, pathSpec]
+  · by_cases h2 : path = [115, 116, 100, 101, 114, 114]
+    · subst h2; simp [newFileSinkFromPath_body, pathSpec]
+    · have e1 : (path == [115, 116, 100, 111, 117, 116]) = false := by simpa using h1
+      have e2 : (path == [115, 116, 100, 101, 114, 114]) = false := by simpa using h2
+      simp [newFileSinkFromPath_body, pathSpec, h1, h2, nm_openFile]
+
+theorem newFileSinkFromPath_matches_source (P : Par) (path : Bytes) (fl0 : Env) (ev : List Val) (fuel : Nat) :
+    run (X P) (fuel + 1) "newFileSinkFromPath" [.bytes path] (("ev", .list ev) :: fl0) =
+      .done [.list (pathSpec P path ev).1.1, .list (pathSpec P path ev).1.2] (("ev", .list (pathSpec P path ev).2) :: fl0) :=
+  run_of_fin (X P) _ _ Gen.TransOpen.newFileSinkFromPath [.bytes path] _ _ _ rfl rfl
+    (newFileSinkFromPath_exec_matches_source P path fl0 ev fuel)
+
+/-- `newFileSinkFromURL`: user info, fragment, query, port, a host other than localhost are each refused (in this order,
+    nothing is opened); otherwise the PATH is handed to `newFileSinkFromPath` -/
+def urlOK (P : Par) (u : Val) (user : List Val) (fragment rawQuery : Bytes) : Bool :=
+  user.isEmpty && fragment.isEmpty && rawQuery.isEmpty && (P.port u).isEmpty &&
+    ((P.hostname u).isEmpty || P.hostname u == [108, 111, 99, 97, 108, 104, 111, 115, 116])
+
+theorem newFileSinkFromURL_matches_source (P : Par) (scheme : Bytes) (user : List Val) (fragment rawQuery path : Bytes) (rest : Val)
+    (fl0 : Env) (ev : List Val) (fuel : Nat) :
+    ∃ res fl, run (X P) (fuel + 2) "newFileSinkFromURL" [urlV scheme user fragment rawQuery path rest] (("ev", .list ev) :: fl0) =
+        .done res fl ∧
+      (if urlOK P (urlV scheme user fragment rawQuery path rest) user fragment rawQuery then
+         res = [.list (pathSpec P path ev).1.1, .list (pathSpec P path ev).1.2] ∧ fl = ("ev", .list (pathSpec P path ev).2) :: fl0
+       else (∃ e, res = [.list [], .list [e]]) ∧ fl = ("ev", .list ev) :: fl0) := by
+  have hcall : ∀ σ : State, retK σ [.loc "l1", .loc "l2"] "newFileSinkFromPath"
+      (exec (X P) (fuel + 1) newFileSinkFromPath_body ⟨[("p0", .bytes path)], ("ev", .list ev) :: fl0⟩) = _ :=
+    fun σ => retK_of_fin2 σ _ _ _ _ _ _ _ (newFileSinkFromPath_exec_matches_source P path fl0 ev fuel)
+  have hfin : ∀ (res : List Val) (fl : Env),
+      (exec (X P) (fuel + 2) newFileSinkFromURL_body
+        ⟨[("p0", urlV scheme user fragment rawQuery path rest)], ("ev", .list ev) :: fl0⟩).fin = some (res, fl) →
+      run (X P) (fuel + 2) "newFileSinkFromURL" [urlV scheme user fragment rawQuery path rest] (("ev", .list ev) :: fl0) =
+        .done res fl :=
+    fun res fl h => run_of_fin (X P) _ _ Gen.TransOpen.newFileSinkFromURL _ _ _ _ rfl rfl h
+  have hexec : (exec (X P) (fuel + 2) newFileSinkFromURL_body
+        ⟨[("p0", urlV scheme user fragment rawQuery path rest)], ("ev", .list ev) :: fl0⟩).fin =
+      (if urlOK P (urlV scheme user fragment rawQuery path rest) user fragment rawQuery then
+        some ([.list (pathSpec P path ev).1.1, .list (pathSpec P path ev).1.2], ("ev", .list (pathSpec P path ev).2) :: fl0)
+       else (exec (X P) (fuel + 2) newFileSinkFromURL_body
+        ⟨[("p0", urlV scheme user fragment rawQuery path rest)], ("ev", .list ev) :: fl0⟩).fin) ∧
+      (urlOK P (urlV scheme user fragment rawQuery path rest) user fragment rawQuery = false →
+        ∃ e, (exec (X P) (fuel + 2) newFileSinkFromURL_body
+          ⟨[("p0", urlV scheme user fragment rawQuery path rest)], ("ev", .list ev) :: fl0⟩).fin =
+          some ([.list [], .list [e]], ("ev", .list ev) :: fl0)) := by
+    rw [exec_succ]
+    cases user with
+    | cons x xs =>
+      have hp : ¬ ((xs.length : Int) + 1 = 0) := by omega
+      constructor
+      · simp [urlOK]
+      · intro _; exact ⟨_, by simp [newFileSinkFromURL_body, urlV, hp, errV] <;> rfl⟩
+    | nil =>
+      cases fragment with
+      | cons x xs =>
+        constructor
+        · simp [urlOK]
+        · intro _; exact ⟨_, by simp [newFileSinkFromURL_body, urlV, errV] <;> rfl⟩
+      | nil =>
+        cases rawQuery with
+        | cons x xs =>
+          constructor
+          · simp [urlOK]
+          · intro _; exact ⟨_, by simp [newFileSinkFromURL_body, urlV, errV] <;> rfl⟩
+        | nil =>
+          cases hport : P.port (urlV scheme [] [] [] path rest) with
+          | cons x xs =>
+            constructor
+            · simp [urlOK, hport]
+            · intro _; exact ⟨_, by simp only [urlV] at hport; simp [newFileSinkFromURL_body, urlV, errV, hport] <;> rfl⟩
+          | nil =>
+            have hport' : P.port (.list [.bytes scheme, .list [], .bytes [], .bytes [], .bytes path, rest]) = [] := hport
+            by_cases hh : (P.hostname (urlV scheme [] [] [] path rest)).isEmpty ||
+                P.hostname (urlV scheme [] [] [] path rest) == [108, 111, 99, 97, 108, 104, 111, 115, 116]
+            · have hh' := hh
+              simp only [urlV] at hh'
+              constructor
+              · simp only [urlOK, hport, hh, List.isEmpty_nil, Bool.and_self, Bool.and_true, if_true]
+                rcases Bool.or_eq_true_iff.mp hh' with h1 | h2
+                · have h1' : P.hostname (.list [.bytes scheme, .list [], .bytes [], .bytes [], .bytes path, rest]) = [] := by
+                    simpa using h1
+                  simp [newFileSinkFromURL_body, urlV, hport', h1', hcall]
+                · have h2' : P.hostname (.list [.bytes scheme, .list [], .bytes [], .bytes [], .bytes path, rest]) =
+                      [108, 111, 99, 97, 108, 104, 111, 115, 116] := by simpa using h2
+                  simp [newFileSinkFromURL_body, urlV, hport', h2', hcall]
+              · intro hf; simp [urlOK, hport, hh] at hf
+            · constructor
+              · simp [urlOK, hport, hh]
+              · intro _
+                have hh' := hh
+                simp only [urlV, Bool.or_eq_true, not_or] at hh'
+                obtain ⟨h1, h2⟩ := hh'
+                have h1' : ¬ P.hostname (.list [.bytes scheme, .list [], .bytes [], .bytes [], .bytes path, rest]) = [] := by
+                  simpa using h1
+                have h2' : ¬ P.hostname (.list [.bytes scheme, .list [], .bytes [], .bytes [], .bytes path, rest]) =
+                    [108, 111, 99, 97, 108, 104, 111, 115, 116] := by simpa using h2
+                exact ⟨_, by simp [newFileSinkFromURL_body, urlV, errV, hport', h1', h2'] <;> rfl⟩
+  obtain ⟨h1, h2⟩ := hexec
+  by_cases hok : urlOK P (urlV scheme user fragment rawQuery path rest) user fragment rawQuery
+  · rw [hok] at h1; simp only [if_true] at h1
+    exact ⟨_, _, hfin _ _ h1, by simp [hok]⟩
+  · have hok' : urlOK P (urlV scheme user fragment rawQuery path rest) user fragment rawQuery = false := by simpa using hok
+    obtain ⟨e, he⟩ := h2 hok'
+    exact ⟨_, _, hfin _ _ he, by simp [hok']⟩
 
 end ZapVerif.C19
